@@ -50,7 +50,7 @@ type probeWorld struct {
 }
 
 func newProbeWorld(seed int64, udp bool) (*probeWorld, error) {
-	w, err := sim.NewWorld(sim.Config{UDP: udp, Seed: seed, Users: []sim.User{{Name: "alice", Password: "alice-secret"}, {Name: "bob", Password: "bob-secret"}}})
+	w, err := sim.NewWorld(sim.Config{UDP: udp, Seed: seed, Users: []sim.User{{Name: "alice", Password: "alice-secret"}, {Name: "bob", Password: "bob-secret"}, {Name: "nopass"}}})
 	if err != nil {
 		return nil, err
 	}
@@ -156,7 +156,7 @@ func genProbesTCP(r *rand.Rand, stream []byte, ends []int, n int, stage string) 
 				add("replay-arbitrary-prefix", stream[:e], "1/0/1/1/1/open-1", fmt.Sprint(e))
 			}
 		default:
-			switch r.Intn(9) {
+			switch r.Intn(11) {
 			case 0: // random bytes, every length class
 				ln := []int{0, 1, 23, 24, 47, 48, 71, 72, 73, 100, 1000, 2000}[r.Intn(12)]
 				if r.Intn(2) == 0 {
@@ -193,6 +193,20 @@ func genProbesTCP(r *rand.Rand, stream []byte, ends []int, n int, stage string) 
 				add("unknown-user", wireHandshake(r, "mallory", "mallory-secret", "mallory"), silentNoKey, "")
 			case 7: // unregistered credential, hint forged for a real user
 				add("forged-hint", wireHandshake(r, "mallory", "mallory-secret", "alice"), silentNoKey, "")
+			case 10: // a user record without any password is registered: its name alone is not a credential
+				add("name-only-user", wireHandshake(r, "nopass", "", "nopass"), silentNoKey, "")
+			case 9: // strict prefix of a genuine first segment the server has NEVER seen in full
+				// (an on-path attacker truncates the handshake): nothing may be created or answered
+				b := wireHandshake(r, "alice", "alice-secret", "alice")
+				cut := r.Intn(len(b))
+				if r.Intn(2) == 0 {
+					cut = len(b) - 1 - r.Intn(8) // inside the trailing padding
+				}
+				m := "0/none/0/0/0/unknown"
+				if cut >= 72 {
+					m = "1/0/0/1/0/open-1" // metadata opens, the body (payload / padding) never completes
+				}
+				add("fresh-genuine-truncated", b[:cut], m, fmt.Sprint(cut))
 			case 8: // truncated well-formed handshake under a foreign credential
 				b := wireHandshake(r, "mallory", "x", "bob")
 				add("foreign-truncated", b[:r.Intn(len(b))], "", "")
@@ -215,9 +229,9 @@ func wireHandshake(r *rand.Rand, user, pass, hintUser string) []byte {
 	r.Read(nonce)
 	copy(nonce[20:], wire.UserHint(hintUser, nonce))
 	enc := &wire.StreamEncoder{Key: key, Nonce: nonce}
-	payload := make([]byte, r.Intn(200))
+	payload := make([]byte, 1+r.Intn(200))
 	r.Read(payload)
-	pad := make([]byte, r.Intn(64))
+	pad := make([]byte, 8+r.Intn(64))
 	r.Read(pad)
 	m := wire.Meta{Proto: wire.OpenSessionRequest, Timestamp: uint32(time.Now().Unix() / 60), SessionID: 1 + r.Uint32()%1000000}
 	return enc.Seal(m, payload, nil, pad, 0)
@@ -228,9 +242,9 @@ func wireDatagram(r *rand.Rand, user, pass, hintUser string) []byte {
 	nonce := make([]byte, 24)
 	r.Read(nonce)
 	copy(nonce[20:], wire.UserHint(hintUser, nonce))
-	payload := make([]byte, r.Intn(200))
+	payload := make([]byte, 1+r.Intn(200))
 	r.Read(payload)
-	pad := make([]byte, r.Intn(64))
+	pad := make([]byte, 8+r.Intn(64))
 	r.Read(pad)
 	m := wire.Meta{Proto: wire.OpenSessionRequest, Timestamp: uint32(time.Now().Unix() / 60), SessionID: 1 + r.Uint32()%1000000}
 	return wire.SealUDP(key, nonce, m, payload, nil, pad, 0)
@@ -248,7 +262,7 @@ func genProbesUDP(r *rand.Rand, dgrams [][]byte, n int, stage string) []probe {
 			add("replay-datagram-other-source", g, "1/none/0/1/1/1/open-1", "")
 			continue
 		}
-		switch r.Intn(8) {
+		switch r.Intn(10) {
 		case 0:
 			ln := []int{0, 1, 47, 71, 72, 73, 500, 1400, 1500}[r.Intn(9)]
 			if r.Intn(2) == 0 {
@@ -288,6 +302,19 @@ func genProbesUDP(r *rand.Rand, dgrams [][]byte, n int, stage string) []probe {
 			add("forged-hint", wireDatagram(r, "mallory", "mallory-secret", "bob"), silent, "")
 		case 7:
 			add("replay-datagram-other-source", g, "1/none/0/1/1/1/open-1", "")
+		case 9:
+			add("name-only-user", wireDatagram(r, "nopass", "", "nopass"), silent, "")
+		case 8: // strict prefix of a genuine first datagram the server has never seen in full
+			b := wireDatagram(r, "alice", "alice-secret", "alice")
+			cut := r.Intn(len(b))
+			if r.Intn(2) == 0 {
+				cut = len(b) - 1 - r.Intn(8) // inside the trailing padding
+			}
+			m := "0/none/none/0/0/0/unknown"
+			if cut >= 72 {
+				m = "1/none/0/0/1/0/open-1" // metadata opens under discovery, exact size checks fail
+			}
+			add("fresh-genuine-truncated", b[:cut], m, fmt.Sprint(cut))
 		}
 	}
 	return ps
@@ -310,6 +337,13 @@ func runProbeCase(c *core.Ctx, k probeCase, prop string) {
 		return
 	}
 	time.Sleep(50 * time.Millisecond)
+	if k.Stage == "C06" && k.UDP && k.Seed%2 == 0 {
+		// half of the UDP replay cases wait until the server no longer holds the recorded session
+		// ("after the original connection ended")
+		for i := 0; i < 80 && len(w.Server.ExportSessionInfoList().GetItems()) > 0; i++ {
+			time.Sleep(100 * time.Millisecond)
+		}
+	}
 	probes := k.Probes
 	if probes == nil {
 		n := 40
